@@ -121,6 +121,18 @@ V("c16b-insert-sorted-modes-unsorted-counts", "C16", {"rule": "C16b", "contains"
   (MFOCK, "    full_basis = np.zeros((len(active_basis), d), dtype=int)\n\n    active_modes = np.delete(np.arange(d), postselected_modes)\n\n    full_basis[:, active_modes] = active_basis\n    full_basis[:, postselected_modes] = np.asarray(\n        postselected_photons,\n        dtype=int,\n    )\n\n    return full_basis\n", "    positions = np.sort(postselected_modes) - np.arange(len(postselected_modes))\n\n    return np.insert(active_basis.astype(int), positions, np.asarray(postselected_photons, dtype=int), axis=1)\n"))
 V("c16b-insert-jointly-sorted", "C16", "silent",
   (MFOCK, "    full_basis = np.zeros((len(active_basis), d), dtype=int)\n\n    active_modes = np.delete(np.arange(d), postselected_modes)\n\n    full_basis[:, active_modes] = active_basis\n    full_basis[:, postselected_modes] = np.asarray(\n        postselected_photons,\n        dtype=int,\n    )\n\n    return full_basis\n", "    order = np.argsort(postselected_modes)\n    positions = np.asarray(postselected_modes)[order] - np.arange(len(postselected_modes))\n\n    return np.insert(active_basis.astype(int), positions, np.asarray(postselected_photons, dtype=int)[order], axis=1)\n"))
+GATESPY = "piquasso/instructions/gates.py"
+V("c13i-one-bogoliubov-condition-only", "C13", {"rule": "C13i", "contains": "GaussianTransform._validate"},
+  (GATESPY, "        if not is_symplectic(\n            np.block([[passive, active], [active.conj(), passive.conj()]]),\n            form_func=complex_symplectic_form,\n        ):", "        if not (\n            np.shape(passive) == np.shape(active)\n            and np.allclose(passive @ passive.conj().T - active @ active.conj().T, np.identity(len(passive)))\n        ):"))
+V("c13i-both-block-identities", "C13", "silent",
+  (GATESPY, "        if not is_symplectic(\n            np.block([[passive, active], [active.conj(), passive.conj()]]),\n            form_func=complex_symplectic_form,\n        ):", "        if not (\n            np.shape(passive) == np.shape(active)\n            and np.allclose(passive @ passive.conj().T - active @ active.conj().T, np.identity(len(passive)))\n            and np.allclose(passive @ active.T, active @ passive.T)\n        ):"))
+V("c13i-block-matrix-misassembled", "C13", {"rule": "C13i", "contains": "GaussianTransform._validate"},
+  (GATESPY, "np.block([[passive, active], [active.conj(), passive.conj()]])", "np.block([[passive, active], [active, passive]])"))
+V("c13h-last-listed-mode-as-largest", "C13", {"rule": "C13h", "contains": "_infer_number_of_modes"},
+  (SIMPY, "        if modes and (not number_of_modes or max(modes) >= number_of_modes):\n            number_of_modes = max(modes) + 1", "        if modes and (not number_of_modes or modes[-1] >= number_of_modes):\n            number_of_modes = modes[-1] + 1"))
+V("c13h-max-in-one-expression", "C13", "silent",
+  (SIMPY, "    number_of_modes = None\n\n    for instruction in instructions:\n        modes = getattr(instruction, \"modes\", None)\n        if modes and (not number_of_modes or max(modes) >= number_of_modes):\n            number_of_modes = max(modes) + 1\n\n    return number_of_modes",
+   "    largest = [max(instruction.modes) for instruction in instructions if getattr(instruction, \"modes\", None)]\n\n    return max(largest) + 1 if largest else None"))
 # ------------------------------------------------------------------------------------------- C20
 V("c20-sub-add", "C20", {"rule": "C20c", "contains": "Sub"}, (EXPR, "ast.Sub: op.sub", "ast.Sub: op.add"))
 V("c20-lt-le", "C20", {"rule": "C20c", "contains": "Lt"}, (EXPR, "ast.Lt: op.lt", "ast.Lt: op.le"))
